@@ -59,6 +59,18 @@ def s_jadd(cx, rule, fn, point_type):
            'general addition formula is reached only after observing H != 0 or R != 0 (H = x2*z1^2 - x1*z2^2, R likewise for y); H tests at bb%s, R tests at bb%s%s' % (
                [z[0] for z in H], [z[0] for z in R], '' if (H and not left) else ' — equal points with different Z fall into the general formula and yield (0,0,0)'),
            G.where(fn, sinks[0]), {'H': [z[1] for z in H], 'R': [z[1] for z in R]})
+    # the identity is returned for H == 0 only after R has been seen to be non-zero (same x, different y: P + (-P));
+    # returning it on H == 0 alone turns P + P' (same point, another representation) into the identity
+    inf = [bb for (bb, i) in G.ret_def_sites(fn) if i == -1 and fn.blocks[bb]['term']['fn'].get('k') == 'def' and last(fn.blocks[bb]['term']['fn']['name']) == 'zero']
+    if inf and H:
+        def is_sum(s_):
+            c = coords(s_)
+            return s_.startswith('fp_add(') and (a, 'y') in c and (b, 'y') in c and not any(ax == 'x' for _, ax in c)
+        S = [z for z in zs if is_sum(z[1])]
+        cut = [e for z in R for e in z[3]] + [e for z in S for e in z[2]]
+        left_inf = sorted({bb for z in H for (_, tgt) in z[2] for bb in inf if bb in fn.reachable_ds(tgt, removed_edges=cut)})
+        cx.add(rule, inst + '/inf', not left_inf,
+               'after H == 0 the identity is returned only once R != 0 (or y1\' + y2\' == 0) has been observed: identity returns at bb%s, reached from an H == 0 edge without it: bb%s' % (inf, left_inf), fn.loc())
     dbl = [bb for bb, t in fn.calls() if t['fn']['k'] == 'def' and last(t['fn']['name']) in ('point_dbl', 'point_double')]
     cx.add(rule, inst + '/doubles', bool(dbl), 'the adder delegates the P = Q case to doubling', fn.loc())
     # doubling must require R == 0 as well: a doubling call reachable with H == 0 but R != 0 would turn P + (-P) into 2P
@@ -369,3 +381,97 @@ def barrett(cx, rule, fn, F):
         cx.add(rule, fn.short + '/top-limb', ok,
                '%s: 2*%s >= 2^256, so x - q*%s can exceed 256 bits: the correction is %sentered from a second test besides the 256-bit comparison' % (fn.short, M, M, '' if ok else 'NOT '),
                G.where(fn, cmp_sites[0][0] if cmp_sites else mb))
+
+
+# ---------------------------------------------------------------------------------------------------------------------
+# I-POW: left-to-right binary exponentiation over the four 64-bit limbs of the exponent
+POW_FNS = {
+    # function suffix: (accumulator local, square template, multiply template, base, initial value)
+    '<impl fields::fp12::Fp12>::pow': ('t', 'fp_sqr(%s)', 'fp_mul(%s, %s)', '$self', 'Fp12::Fp12{mont_one(), zero(), zero()}'),
+    'gm_sm9::fields::fp::fp_pow': ('r', 'fp_sqr(%s)', 'fp_mul(%s, %s)', '$a', 'SM9_MODP_MONT_ONE'),
+    'gm_sm9::fields::mod_n_pow': ('r', 'mod_n_mul(%s, %s)', 'mod_n_mul(%s, %s)', '$a', 'SM9_ONE'),
+    'gm_sm2::fields::fp64::fp_pow': ('r', 'fp_sqr(%s)', 'fp_mul(%s, %s)', '$a', 'SM2_MODP_MONT_ONE'),
+    'gm_sm2::fields::fn64::fn_pow': ('r', 'mont_mul(%s, %s)', 'mont_mul(%s, %s)', 'fn_to_mont($a)', 'SM2_N_NEG'),
+}
+
+
+def square_multiply(cx, rule, suffix):
+    """the exponentiation loop: for every limb of the exponent, most significant first, exactly 64 times
+    `acc = acc^2; if top bit of w { acc = acc * base }; w <<= 1` — no iteration, limb or squaring can be skipped"""
+    from . import rules_i as I, rules_g as G
+    from .prov import Prov, norm, last
+    from .builder import Canon
+    acc, sq_t, mul_t, base, one = POW_FNS[suffix]
+    fn = cx.fn(suffix, rule)
+    if fn is None:
+        return
+    F = cx.F
+    inst = fn.short
+    P = Prov(fn, F, cut_loops=True)
+    cn = Canon(fn, P)
+    vin = 'var:%s@in' % acc
+    sq = sq_t % ((vin,) * sq_t.count('%s'))
+    mul = mul_t % (sq, base)
+    tr = I.transfer(fn, F, 'Range::Range{0, 64}', [acc, 'w'])
+    inner = I.find_loop(fn, P, cn, 'Range::Range{0, 64}', defines=[acc, 'w'])
+    outer = I.find_loop(fn, P, cn, 'rev(Range::Range{0, 4})')
+    if tr is None or inner is None or outer is None:
+        cx.violate(rule, inst + '/loops', 'the limb loop `for i in (0..4).rev()` with the bit loop `for _ in 0..64` inside was not found', fn.loc())
+        return
+    got = tr[acc] or ''
+    alts = sorted(x.strip() for x in got[4:-1].split(' | ')) if got.startswith('phi(') and got.endswith(')') else [got]
+    cx.add(rule, inst + '/step', alts == sorted([sq, mul]) and tr['w'] == 'Shl(var:w@in, 1)',
+           'one bit step: %s = %s^2, times the base when the top bit of w is set; w <<= 1 (got %s; w = %s)' % (acc, acc, FR_short(got), tr['w']), fn.loc(), {'got': tr})
+    ih, icomp, _ = inner
+    oh, ocomp, olatches = outer
+    # the multiplication is selected by the top bit of w
+    mul_last = last(mul_t.split('(')[0])
+    mul_blocks = [b for b in icomp if fn.blocks[b]['term']['k'] == 'call' and fn.blocks[b]['term']['fn'].get('k') == 'def'
+                  and cn.c(norm(P.local(fn.blocks[b]['term']['dest']['l'], fn.blocks[b]['term']['target'], 0))) == mul] if True else []
+    sel = []
+    for b, p, te, fe in G.bool_switches(fn, P):
+        if b in icomp and p.kind == 'eq' and sorted(cn.c(a) for a in p.args) == sorted(['BitAnd(var:w@in, 0x8000000000000000)', '0']):
+            sel.append((b, te if p.neg else fe))
+    ok_sel = len(sel) == 1 and len(mul_blocks) == 1 and mul_blocks[0] not in fn.reachable_ds(ih, removed_edges=sel[0][1])
+    cx.add(rule, inst + '/bit', ok_sel, 'the multiplication by the base is done exactly when w & 2^63 != 0 (bit tests %s, multiplication blocks %s)' % ([s[0] for s in sel], mul_blocks), fn.loc())
+    # nothing is skipped: the bit loop leaves only when its range is exhausted, every pass of the limb loop runs it
+    def exits(comp):
+        return sorted((u, v) for u in comp for v in fn.succ(u) if v not in comp and not fn.blocks[v].get('cleanup') and fn.blocks[v]['term']['k'] != 'unreachable')
+    iex, oex = exits(icomp), exits(ocomp)
+    def is_iter_exit(u, rng):
+        t = fn.blocks[u]['term']
+        return t['k'] == 'switch' and rng in cn.c(norm(P.operand(t['op'], u, len(fn.blocks[u]['stmts']))))
+    ok_exit = len(iex) == 1 and is_iter_exit(iex[0][0], 'next(into_iter(Range::Range{0, 64}))') and len(oex) == 1 and is_iter_exit(oex[0][0], 'next(into_iter(rev(Range::Range{0, 4})))')
+    cx.add(rule, inst + '/no-early-exit', ok_exit, 'both loops are left only when their ranges are exhausted (bit-loop exits %s, limb-loop exits %s)' % (iex, oex), fn.loc())
+    r = fn.reachable_ds(oh, removed_blocks={ih})
+    skipping = [l for l in olatches if l in r and l != oh]
+    # a latch reachable from the limb-loop header without entering the bit loop = a limb whose 64 squarings are skipped
+    within = [l for l in skipping if l in ocomp]
+    cx.add(rule, inst + '/every-limb', icomp < ocomp and not within, 'every pass of the limb loop runs the 64 bit steps (no path from the limb-loop header back to it avoids the bit loop)', fn.loc(),
+           {'skipping_latches': within})
+    # w is the limb i of the exponent, i = 3, 2, 1, 0
+    wl = [cn.c(norm(P.rvalue(st['rv'], b, i, 0))) for b, i, st in fn.stmts() if st['k'] == 'assign' and not st['lhs']['p']
+          and fn.locals[st['lhs']['l']].get('name') == 'w' and b in ocomp and b not in icomp]
+    cx.add(rule, inst + '/limb', wl == ['$e[each(rev(Range::Range{0, 4}))]'], 'w is loaded with limb i of the exponent, i = 3, 2, 1, 0 (got %s)' % wl, fn.loc())
+    # start value and result
+    idx = {l.get('name'): i for i, l in enumerate(fn.locals) if l.get('name')}
+    P0 = Prov(fn, F)
+    cn0 = Canon(fn, P0)
+    pre = [p for p in fn.pred(oh) if p not in ocomp]
+    init = sorted({cn0.c(norm(P0.local(idx[acc], p, len(fn.blocks[p]['stmts'])))) for p in pre}) if acc in idx else []
+    cx.add(rule, inst + '/init', init == [one], 'the accumulator starts as the multiplicative identity %s (got %s)' % (one, init), fn.loc())
+    rets = {v for _, v in I.returns(fn, F, cut_loops=True)}
+    inner_vals = set()
+    for v in rets:
+        if v.startswith('fn_from_mont(phi(') and v.endswith('))'):
+            inner_vals |= {x.strip() for x in v[len('fn_from_mont(phi('):-2].split(' | ')}
+        elif v.startswith('phi(') and v.endswith(')'):
+            inner_vals |= {x.strip() for x in v[4:-1].split(' | ')}
+        else:
+            inner_vals.add(v)
+    cx.add(rule, inst + '/result', inner_vals == {one, sq, mul}, 'the result is the accumulator after the last limb (returned values %s)' % sorted(FR_short(x, 60) for x in rets), fn.loc())
+
+
+def FR_short(s, n=160):
+    from .frame import short
+    return short(s, n)
